@@ -90,3 +90,51 @@ Check C04_guards_nonvacuous :
   (bw_no_blank_skip sw_f2 ex_spin_prog 40 zero_reflexive_configs = false /\
    bw_skips_justified sw_f2 ex_spin_prog 40 zero_reflexive_configs = true /\
    cant_spin_out_sw sw_f2 ex_spin_prog 40 = Ok (BwRefuted 10)).
+
+(** ---- Proofs/ReasonSkips.v: the run guard always holds ---- *)
+From BB Require Import ReasonSkips.
+From BB Require InstrsRoundTrip.
+Check C04_skips_always_justified : forall sw comp depth,
+  NoDup (map fst comp) ->
+  bw_skips_justified sw comp depth (halt_configs sw) = true /\
+  bw_skips_justified sw comp depth zero_reflexive_configs = true.
+Check C04_sorted_distinct_slots : forall comp : comp_prog,
+  InstrsRoundTrip.cp_sortedb comp = true -> NoDup (map fst comp).
+Check C04_parsed_distinct_slots : forall s (comp : comp_prog),
+  from_str s = Some comp -> NoDup (map fst comp).
+Check C04_skips_always_justified_sorted : forall sw comp depth s,
+  InstrsRoundTrip.cp_sortedb comp = true ->
+  sw_nodrop sw = true ->
+  (cant_halt_sw sw comp depth = Ok (BwRefuted s) ->
+     bw_skips_justified sw comp depth (halt_configs sw) = true) /\
+  (cant_spin_out_sw sw comp depth = Ok (BwRefuted s) ->
+     bw_skips_justified sw comp depth zero_reflexive_configs = true).
+Check C04_skips_justified_needs_distinct_slots :
+  let sw := mkSw true true in
+  sw_nodrop sw = true /\
+  cant_halt_sw sw dup_prog 10 = Ok (BwRefuted 2) /\
+  bw_skips_justified sw dup_prog 10 (halt_configs sw) = false.
+Check eq_refl : dup_prog = [((0,1),(1,false,1)); ((1,0),(0,true,2)); ((1,0),(0,false,2))].
+Check C04_skips_always_justified_stmt_literal_false : ~ C04_skips_always_justified_stmt.
+Check C04_bw_halt_refuted_sound_nodrop : forall sw comp depth s,
+  NoDup (map fst comp) ->
+  sw_nodrop sw = true ->
+  halt_box_ok sw comp = true ->
+  to_prog comp (0, 0) <> None ->
+  cant_halt_sw sw comp depth = Ok (BwRefuted s) ->
+  forall n sl, ~ halts_at (to_prog comp) init_config n sl.
+Check C04_bw_spinout_refuted_sound_nodrop : forall sw comp depth s,
+  NoDup (map fst comp) ->
+  sw_nodrop sw = true ->
+  cant_spin_out_sw sw comp depth = Ok (BwRefuted s) ->
+  forall n, ~ spins_out_at (to_prog comp) init_config n.
+Check C04_bw_refuted_sound_nodrop : forall sw comp depth s,
+  NoDup (map fst comp) ->
+  sw_nodrop sw = true ->
+  (halt_box_ok sw comp = true -> to_prog comp (0, 0) <> None ->
+   cant_halt_sw sw comp depth = Ok (BwRefuted s) ->
+   forall n sl, ~ halts_at (to_prog comp) init_config n sl) /\
+  (cant_blank_sw sw comp depth = Ok (BwRefuted s) ->
+   forall n, ~ erases_at (to_prog comp) init_config n) /\
+  (cant_spin_out_sw sw comp depth = Ok (BwRefuted s) ->
+   forall n, ~ spins_out_at (to_prog comp) init_config n).
